@@ -525,7 +525,10 @@ func (cc *Conn) prepareWriteMessage(req *pool.Message, handler HandlerFunc) (fun
 			return nil, fmt.Errorf("cannot insert mid(%v) handler: %w", req.MessageID(), coapErrors.ErrKeyAlreadyExists)
 		}
 		closeFns = append(closeFns, func() {
-			_, _ = cc.midHandlerContainer.LoadAndDelete(req.MessageID())
+			if elem, ok := cc.midHandlerContainer.LoadAndDelete(req.MessageID()); ok {
+				// drop the retransmission copy with the entry, as every other removal does
+				elem.ReleaseMessage(cc)
+			}
 		})
 	case message.NonConfirmable:
 		/* TODO need to acquireOutstandingInteraction
